@@ -510,7 +510,7 @@ fn whole(tz: &[u8]) {
 //@harness c17_posix_parse_upto_24
 //@target shared::posix::Parser::parse with ianav3plus (= PosixTimeZone::parse, TimeZone::posix, the TZif footer) (src/shared/posix.rs)
 //@prop C17
-//@tier quick
+//@tier thorough
 //@timeout 1500
 //@bounded every byte string of 1..=24 bytes (the empty string is c17_posix_parse_empty); only `core::str::from_utf8` is replaced (by a version that asserts the bytes are ASCII)
 //@doc no stubs for parser code: the whole POSIX TZ parser returns Ok or Err without panicking; Ok(tz) => PosixTimeZone::wf (standard offset inside -89999..=89999, DST offset inside -93599..=93599, rule day specs and times in range), both abbreviations have 3..=30 bytes.  Ok is reachable inside the bound both without DST ("AAA0", 4 bytes) and with a DST rule ("AAA0BBB,0,0", 11 bytes; "AAA0BBB,M3.2.0,M11.1.0" has 23)
